@@ -3,6 +3,10 @@
   impl (`encodeT` arm that returns `some`), one per step of the three element loops.  Derived
   once from the functional induction principle of `encodeT`; C01 (round trip), C03 (preferred
   serialisation) and C07 (length) are each one application of it.
+
+  Maintenance: the `case caseN` tags in the proof follow the clause order of `encodeT` /
+  `encodeMap` / `encodeTup` / `encodeList` in Types.lean (failing arms are closed wholesale by
+  the `simp … at h` line); if a clause is added there, add its premise here and renumber.
 -/
 import Minicbor.Types
 
